@@ -212,7 +212,7 @@ fn check_monotone(ctx: &Ctx, m: &Model, u0: Option<f32>, case: &dyn Fn() -> Valu
 }
 
 pub fn run(ctx: &Ctx) -> i32 {
-    let nst = ctx.tier.pick(8, 10);
+    let nst = 10;
     let mut accs: Vec<Acc> = vec![];
     // EXTERIOR / ADIABATIC
     for (bi, b) in [BoundaryType::EXTERIOR, BoundaryType::ADIABATIC].iter().enumerate() {
@@ -229,7 +229,7 @@ pub fn run(ctx: &Ctx) -> i32 {
         }
     }
     // INTERIOR
-    let zs_int: Vec<f32> = ctx.tier.pick(vec![0.0, -1.2], vec![0.0, -0.005, -1.2, -3.5]);
+    let zs_int: Vec<f32> = vec![0.0, -0.005, -1.2, -3.5];
     let g = Grid::new(&[("tilt", 9), ("stack", nst), ("this_kind", 3), ("next{C,U,N,None,dangling}", 5), ("n_v{Some,None}", 2), ("global_vent{Some,None}", 2), ("slab_ins", 2), ("z_next", zs_int.len()), ("owner{A,B}", 2)]);
     accs.extend(par_fold(g.size(), |i, acc: &mut Acc| {
         let t = g.unrank(i);
@@ -249,10 +249,10 @@ pub fn run(ctx: &Ctx) -> i32 {
     }));
     ctx.sample(json!({"bounds": "INTERIOR", "tuple": g.describe(&g.unrank(g.size() / 2 + 11))}));
     // GROUND
-    let zs: Vec<f32> = ctx.tier.pick(vec![0.0, -0.005, -1.2, -3.5], vec![0.0, -0.005, -0.5, -1.2, -2.9, -3.5]);
-    let perims: Vec<(f32, f32)> = ctx.tier.pick(vec![(0.0, 0.0), (1.0, 1.5)], vec![(0.0, 0.0), (1.0, 1.5), (0.5, 0.5), (2.0, 3.0), (1.0, 0.0), (0.0, 1.5)]);
-    let slabs: Vec<(f32, f32)> = ctx.tier.pick(vec![(4.0, 4.0), (20.0, 5.0)], vec![(4.0, 4.0), (20.0, 5.0), (10.0, 10.0), (2.0, 30.0)]);
-    let shares: Vec<f32> = ctx.tier.pick(vec![1.0, 0.5, 0.0], vec![1.0, 0.5, 0.25, 0.0]);
+    let zs: Vec<f32> = ctx.tier.pick(vec![0.0, -0.005, -0.5, -1.2, -2.9, -3.5], vec![0.0, -0.005, -0.009, -0.011, -0.5, -1.2, -2.5, -2.9, -3.0, -3.5, -6.0]);
+    let perims: Vec<(f32, f32)> = vec![(0.0, 0.0), (1.0, 1.5), (0.5, 0.5), (2.0, 3.0), (1.0, 0.0), (0.0, 1.5)];
+    let slabs: Vec<(f32, f32)> = ctx.tier.pick(vec![(4.0, 4.0), (20.0, 5.0), (10.0, 10.0), (2.0, 30.0)], vec![(4.0, 4.0), (20.0, 5.0), (10.0, 10.0), (2.0, 30.0), (1.0, 1.0), (50.0, 40.0)]);
+    let shares: Vec<f32> = vec![1.0, 0.5, 0.25, 0.0];
     let g = Grid::new(&[("tilt", 9), ("stack", nst), ("kind", 3), ("z", zs.len()), ("perim_ins(D,Rn)", perims.len()), ("slab", slabs.len()), ("ext_share", shares.len()), ("slab_ins", 2)]);
     accs.extend(par_fold(g.size(), |i, acc: &mut Acc| {
         let t = g.unrank(i);
